@@ -52,6 +52,15 @@ def fam_script_tags(q):
         lambda s, g: len(s["scriptTags"]), q
 
 
+def fam_justify_attr_ids(q):
+    """q ligature components (5 glyph attributes each) are numbered before the justification attributes, whose ids the
+    Silf header stores in one byte each: the id in the header must be the id the value is stored under in Glat"""
+    comps = "; ".join("component.c%d = box(0, 0, %dm, 10m)" % (i, i + 1) for i in range(q))
+    return (HDR + "table(glyph) cL = glyphid(11) {%s}; cA = glyphid(3..6) {justify.stretch = 777m; justify.weight = 3}; cB = glyphid(7..10); endtable;\n"
+            "table(sub) cA > cB; endtable;\n" % comps), ["NOENGINE"], \
+        lambda s, g: [a for a, v in g["glat"]["glyphs"][3]["attrs"] if v == 777] == [s["jAttrs"][0][0]], True
+
+
 def fam_features(q):
     feats = "".join('f%d { id = %d; name.1033 = string("F%d"); settings { a%d { value = 0; name.1033 = string("x"); } } default = a%d; }\n' % (i, 100 + i, i, i, i) for i in range(q))
     return HDR + GT + "table(feature)\n" + feats + "endtable;\ntable(sub) cA > cB; endtable;\n", [], None, q
@@ -138,6 +147,7 @@ FAMILIES = [
     ("precontext", fam_precontext, [62, 63, 64, 200], 120),
     ("padded_rule_slots", fam_padded_slots, [42, 43, 44, 45, 60], 120),
     ("script_tags", fam_script_tags, [254, 255, 256, 257, 400], 120),
+    ("justify_attr_ids_after_components", fam_justify_attr_ids, [40, 48, 49, 50, 52, 70], 120),
     ("features", fam_features, [62, 63, 64, 65, 200], 120),
     ("user_attr_index", fam_userattr, [15, 16, 17, 64], 120),
     ("glyph_attrs", fam_gattrs, [250, 252, 253, 256, 300], 120),
@@ -243,7 +253,7 @@ def run(tier, seed, replay=None):
     rep.coverage.update({
         "programs": stats["cases"], "traces_validated_against_impl": stats["cases"], "disagreements_checked": len(rep.violations),
         "evaluations": stats["cases"], "distinct_nontrivial": len(distinct), "outcomes": table,
-        "rule": "18 size-parameterised families x 4-5 sizes around each limit; distinct = distinct (family, size, outcome)",
+        "rule": "19 size-parameterised families x 4-5 sizes around each limit; distinct = distinct (family, size, outcome)",
         "samples": samples, "exhaustive": False,
     })
     rep.assumptions += ["field widths are my reading of GTF; limits are re-extracted from constants.h",
